@@ -75,7 +75,7 @@ impl Perform for ANSIParser {
             match code[0] {
                 0 => attr = Attr::default(),
                 1 => attr.effect |= Effect::BOLD,
-                2 => attr.effect |= !Effect::BOLD,
+                2 => attr.effect |= Effect::DIM,
                 4 => attr.effect |= Effect::UNDERLINE,
                 5 => attr.effect |= Effect::BLINK,
                 7 => attr.effect |= Effect::REVERSE,
